@@ -84,6 +84,17 @@ func oracle(c *hx.Ctx, probes, fatal []Probe, origin string) {
 				path = "pre"
 			}
 			c.Count("outcome:" + path + ":" + o.State)
+			if o.Path == "block" && kindOf(p) == "native" && len(o.Detail) == len(p.Txs) {
+				ct := strings.SplitN(p.Name, ":", 3)[1]
+				for k := range p.Txs { // how deep the structured calls get: successes per contract
+					if o.Detail[k] == 'S' {
+						c.Count("native-call-succeeded:" + ct)
+						c.Nontrivial("native-ok:" + ct + ":" + p.Txs[k].Method)
+					} else {
+						c.Count("native-call-refused:" + ct)
+					}
+				}
+			}
 			if o.State == "panic" {
 				c.Fail(crashClass(p, "panic", o.Detail), "Invoke return value: the execution ended in a Go panic (the node has no recover on this path)",
 					p, map[string]string{"path": o.Path, "panic": o.Detail}, "a result or an error")
